@@ -26,7 +26,8 @@ from .aliases import factory_table
 
 # --------------------------------------------------------------------------------------------- generator
 TERMS = [('"abc"', ("Term", "abc", "str")), ('"a b, c"', ("Term", "a b, c", "str")), ('"Ann  Lee"', ("Term", "Ann  Lee", "str")), ("5", ("Term", 5, "int")), ("-3", ("Term", -3, "int")),
-         ("2.5", ("Term", 2.5, "float")), ("-0.75", ("Term", -0.75, "float")), ("9007199254740993", ("Term", 9007199254740993, "int")), ("/a.b+/", ("Term", "/a.b+/", "str"))]
+         ("2.5", ("Term", 2.5, "float")), ("-0.75", ("Term", -0.75, "float")), ("9007199254740993", ("Term", 9007199254740993, "int")), ("/a.b+/", ("Term", "/a.b+/", "str")),
+         ("5.0", ("Term", 5.0, "float")), ("-3.0", ("Term", -3.0, "float")), ("0.0", ("Term", 0.0, "float")), ("0", ("Term", 0, "int")), ('""', ("Term", "", "str"))]
 HEADERS = [("#name", ("Header", "name", ())), ("#0", ("Header", "0", ())), ('#"Last Name"', ("Header", "Last Name", ())), ('#"price.usd"', ("Header", "price.usd", ())),
            ("#amount.asbool", ("Header", "amount", ("asbool",)))]
 VARIABLES = [("@x", ("Variable", "x", ())), ("@x.latch", ("Variable", "x", ("latch",))), ("@x.onmatch.asbool", ("Variable", "x", ("onmatch", "asbool"))), ("@t.k", ("Variable", "t", ("k",)))]
@@ -195,6 +196,9 @@ def run(idx, rep, tier):
     # the text handed to the match grammar is the csvpath as written: only outer comments are split off (C15's split corpus)
     from . import c15
     c15.r6(idx, K.as_rule(rep, "R6", keep=lambda k: "extract_csvpath_and_comment" in k or "extract_metadata" in k))
+    # an outer comment without mode settings changes nothing: what it contributes is merged into the metadata the csvpath already has
+    # (the settings made through the API live there), never put in their place
+    c15.metadata_merge(idx, rep, "R6")
     # ---- R1 static
     try:
         lark.Lark(mm.gsrc, parser="lalr", start=mm.ctor.get("start", "match"))
@@ -323,6 +327,12 @@ def r4(idx, rep, mm):
     got = mm.parse_texts(texts)
     rep.check(got == texts, "R4", f"{mm.fparse.file}::LarkParser.parse returns the tree of the text it was given",
               f"for the texts {texts} the trees returned were parsed from {got}: two csvpaths that differ inside a quoted string would share one tree", K.where(mm.fparse, mm.fparse.node))
+    # … and so does the matcher, which is where a run parses its match part: every csvpath of a process gets the tree of its own text
+    fmi, gotm = mm.matcher_texts(texts)
+    rep.analysed(fmi)
+    rep.check(gotm == texts, "R4", f"{fmi.file}::Matcher.__init__ builds the components from the tree of its own match part",
+              f"for the match parts {texts} (parsed one after the other in one process) the trees handed to the transformer were parsed from {gotm}: "
+              "a csvpath that differs from an earlier one only inside a quoted string or regex runs the earlier one's literals", K.where(fmi, fmi.node))
 
 
 def r5(idx, rep):
